@@ -59,6 +59,12 @@ func ppInto(b *strings.Builder, n ast.Node) {
 	case *ast.IdentifierNode:
 		b.WriteString("id:" + x.Ident)
 	case *ast.UnaryNode:
+		// a minus sign applied to a numeric or duration literal denotes the negative literal
+		// (a var holding -7 is inlined as the literal -7, the text "-7" parses as minus applied to 7)
+		if lit, ok := foldNeg(x); ok {
+			b.WriteString(lit)
+			return
+		}
 		b.WriteString("(" + x.Operator.String() + " ")
 		ppInto(b, x.Node)
 		b.WriteString(")")
@@ -124,4 +130,44 @@ func ppInto(b *strings.Builder, n ast.Node) {
 	default:
 		fmt.Fprintf(b, "<%T>", n)
 	}
+}
+
+// foldNeg folds chains of unary minus over a numeric/duration literal into one signed literal.
+func foldNeg(n ast.Node) (string, bool) {
+	neg := false
+	for {
+		u, ok := n.(*ast.UnaryNode)
+		if !ok || u.Operator != ast.TokenMinus {
+			break
+		}
+		neg = !neg
+		n = u.Node
+	}
+	switch x := n.(type) {
+	case *ast.NumberNode:
+		if x == nil {
+			return "", false
+		}
+		switch {
+		case x.IsInt && !x.IsFloat:
+			v := x.Int64
+			if neg {
+				v = -v
+			}
+			return "i:" + strconv.FormatInt(v, 10), true
+		case x.IsFloat && !x.IsInt:
+			f := x.Float64
+			if neg {
+				f = -f
+			}
+			return "f:" + strconv.FormatFloat(f, 'g', -1, 64), true
+		}
+	case *ast.DurationNode:
+		d := int64(x.Dur)
+		if neg {
+			d = -d
+		}
+		return "d:" + strconv.FormatInt(d, 10), true
+	}
+	return "", false
 }
